@@ -123,6 +123,9 @@ def restore_one_vc(S, prefix='restore'):
             ctx.oblige(prefix + '/' + n, f)
         ctx.oblige(prefix + '/info-removed-only-after-the-payload-left',
                    z3.BoolVal(allowed))
+        ctx.oblige(prefix + '/move-preserves-metadata-default-copy2',
+                   z3.BoolVal(not [e for e in ctx.events
+                                   if e[0] == 'shutil.move-options']))
         if outcome[0] == 'return':
             ctx.oblige(prefix + '/success-means-moved-and-info-removal-attempted',
                        z3.BoolVal(move_ok))
